@@ -38,6 +38,19 @@ R12c  the reflow code has the shape the touch relation assumes: (1) in
       parent and applies the token's own types last; (5) ``PyLexer.lex_match`` takes the FIRST
       matcher of the table that matches and ``RegexLexer`` matches with ``DOTALL`` only.
 
+R12d  text that RF06 may write lexes back as one identifier token.  ``Rule_RF06`` replaces a quoted
+      identifier by its bare contents when they ``regex.fullmatch`` the ``template`` of the dialect's
+      library entry ``NakedIdentifierSegment`` (``IGNORECASE``), do not fullmatch its ``anti_template``
+      and equal their own casefold (the entry, the flags and the dialects exempt from the casefold
+      test are read from ``rules/references/RF06.py``).  For every dialect the declared template /
+      anti-template and the dialect's lexer table are EVALUATED (``regex`` module) on generated
+      candidate strings: every ASCII character 33..126 and a sample of non-ASCII letters/digits,
+      alone and before / after / inside a plain word, plus all strings of length <= 3 over
+      {Q, q, E, e, 0, 1, _} and the admitted ASCII symbols.  Every candidate the entry admits must
+      be read by the lexer table as ONE token of the matcher(s) that read a plain word.  Decided
+      on these candidates only (ASCII exhaustive per character; longer interactions not);
+      patterns that do not compile or admit no plain word are counted, never alarmed.
+
 How the data is obtained: the grammar object graph and the lexer tables come from the grammar
 front-end (``sa/grammar_frontend.py``: imports the dialect modules and serialises the objects;
 never lexes or parses).  The serialised pattern STRINGS of a dialect's matcher table are compiled
@@ -206,7 +219,9 @@ def run(chk) -> None:
     chk.rule("R12a", "for every dialect and every pair of fixed-text leaf tokens that the grammar lets follow each other with a gap and the default layout configuration asks to touch, the dialect's lexer table reads the joined text as the same two tokens (exhaustive over the serialised grammars, lexer tables and the default configuration)")
     chk.rule("R12b", "no grammar junction asks two keywords to touch (spacing_within/before/after = touch reaching both sides): every keyword pair of every such junction is read by the lexer table as the same two tokens")
     chk.rule("R12c", "the reflow code deletes whitespace only under touch-and-not-any, derives the constraints from spacing_after of the previous / spacing_before of the next block and spacing_within of the immediate common parent, never strips a newline next to a comment, claims parent spacing only at the parent's edges with own types last; the lexer takes the first matcher that matches")
+    chk.rule("R12d", "every candidate text that the dialect's NakedIdentifierSegment entry admits (template fullmatch, IGNORECASE, minus anti_template, casefold-stable: what RF06 unquotes) is read by the dialect's lexer table as one token of the matcher that reads a plain word (ASCII characters exhaustively, alone and in word context; all strings up to length 3 over a representative alphabet)")
     in_selftest = getattr(chk, "in_selftest", False)
+    rf06 = _rf06_facts(repo)
     cfg = LayoutConfig.of_repo(repo)
     chk.count("layout.sections", cfg.n_sections)
     chk.count("layout.types_with_spacing", len(cfg.types))
@@ -222,6 +237,7 @@ def run(chk) -> None:
     kinds = Kinds(g)
     chk.note(f"grammar front-end: {len(g)} dialects, {g.n_nodes} nodes ({'cache' if g.from_cache else 'rebuilt'}); default layout: {cfg.n_sections} type sections, {len(touch_types)} with a touch constraint.")
     families: Dict[tuple, Family] = {}
+    d_findings: List[dict] = []
     n_ok = 0
     unknown_raw: Set[str] = set()
     for label in sorted(g):
@@ -283,6 +299,7 @@ def run(chk) -> None:
                     fam.site = site
                     fam.home = (on.get("module"), on.get("line"))
                 fam.add(label, where)
+        _r12d_dialect(chk, repo, g, dc, rf06, d_findings)
         chk.count("touch_pairs", n_pairs)
         chk.count("fixed_text_pairs_evaluated", n_fixed)
         chk.count("fixed_text_pairs_not_tokens", n_unreal)
@@ -327,6 +344,227 @@ def run(chk) -> None:
         for lb in labels:
             chk.fail(fam.rule, None, msg + f" [dialect {lb}: {fam.dialects[lb][0]}]", detail=f"{base}; dialect={lb}", construct=construct, loc=loc,
                      extra={"dialect": lb, "sites": fam.dialects[lb][:3], "all_dialects": labels})
+
+
+    chk.floor("R12d.dialects_evaluated", 20 if not in_selftest else 1)
+    chk.floor("R12d.candidates_admitted", 2000 if not in_selftest else 50)
+    for f_ in d_findings:
+        chk.fail("R12d", None, f_["message"], detail=f_["detail"], construct=f_["construct"], loc=f_["loc"], extra=f_["extra"])
+
+
+# -- R12d: what RF06 may unquote lexes back as one identifier token ---------------------------------------
+
+RF06 = "src/sqlfluff/rules/references/RF06.py"
+PROBE_ASCII = [chr(c) for c in range(33, 127)]
+PROBE_OTHER = ["\u00e9", "\u00df", "\u00d8", "\u0416", "\u03bb", "\u4e2d", "\u0663", "\u00b2", "\u00aa", "\u0130", "\u017f", "\u212a"]
+WORD_SEEDS = ("QZ", "qz", "Qz")
+REP_CHARS = ("Q", "q", "E", "e", "0", "1", "_")
+
+
+def _rf06_facts(repo) -> dict:
+    """Which library entry RF06 consults, that it decides by fullmatch with IGNORECASE, and which
+    dialects are exempt from the casefold test (all read from the rule's source)."""
+    f = repo.fn(RF06, "Rule_RF06._eval")
+    keys = []
+    for n in ast.walk(f):
+        if isinstance(n, ast.Subscript) and isinstance(n.value, ast.Attribute) and n.value.attr == "_library" and isinstance(const(n.slice), str):
+            keys.append(const(n.slice))
+    if len(set(keys)) != 1:
+        raise AnalysisError(f"RF06._eval: expected one dialect._library[<name>] look-up, found {sorted(set(keys))}; read the rule again")
+    fm = [c for c in calls_in(f) if last_attr(c) == "fullmatch"]
+    reads = set()
+    for c in fm:
+        if len(c.args) < 2:
+            continue
+        flag = c.args[2] if len(c.args) > 2 else kwarg(c, "flags")
+        if not (isinstance(flag, ast.Attribute) and flag.attr in ("IGNORECASE", "I")):
+            raise AnalysisError("RF06._eval: a fullmatch without exactly regex.IGNORECASE; R12d evaluates the patterns with IGNORECASE")
+        for a in ast.walk(c.args[0]):
+            if isinstance(a, ast.Attribute) and a.attr in ("template", "anti_template"):
+                reads.add(a.attr)
+        if isinstance(c.args[0], ast.Name):
+            cfg = cfg_of(f)
+            for o in origins(cfg, c.args[0], cfg.stmt_of(c)):
+                if isinstance(o.expr, ast.AST):
+                    for a in ast.walk(o.expr):
+                        if isinstance(a, ast.Attribute) and a.attr in ("template", "anti_template"):
+                            reads.add(a.attr)
+    if reads != {"template", "anti_template"}:
+        raise AnalysisError(f"RF06._eval no longer decides by fullmatch of the parser's template and anti_template (found {sorted(reads)}); read the rule again")
+    exempt: Set[str] = set()
+    for n in ast.walk(f):
+        if isinstance(n, ast.Compare) and len(n.ops) == 1 and isinstance(n.ops[0], ast.In) and isinstance(n.left, ast.Attribute) and n.left.attr == "name" \
+                and isinstance(n.comparators[0], (ast.Tuple, ast.List, ast.Set)):
+            vals = [const(e) for e in n.comparators[0].elts]
+            if all(isinstance(v, str) for v in vals):
+                exempt |= set(vals)
+    return {"entry": keys[0], "casefold_exempt": exempt}
+
+
+def _entry_home(repo, g, d, name: str) -> Tuple[str, str]:
+    """The most derived dialect module of ``d``'s inheritance chain that sets library entry ``name``."""
+    cur = d
+    seen = set()
+    while cur is not None and cur.label not in seen:
+        seen.add(cur.label)
+        if cur.module:
+            try:
+                m = repo.mod(cur.module)
+            except AnalysisError:
+                m = None
+            if m is not None:
+                for n in ast.walk(m.tree):
+                    if isinstance(n, ast.keyword) and n.arg == name:
+                        return f"{cur.module}::{name}", f"{cur.module}:{n.value.lineno}"
+        parent = cur.inherits_from
+        cur = next((x for x in g.values() if x.name == parent), None) if parent else None
+    return f"{d.module or DIALECT_DIR}::{name}", d.module or DIALECT_DIR
+
+
+def _r12d_dialect(chk, repo, g, dc: "DialectCheck", rf06: dict, out: List[dict]) -> None:
+    import regex as rx_mod
+
+    d = dc.d
+    label = dc.label
+    entry = rf06["entry"]
+    i = d.library.get(entry)
+    if i is None:
+        chk.count("R12d.dialects_without_entry")
+        return
+    n = d.nodes[i]
+    if not (dc.adj.g.kind_is(n["kind"], "RegexParser") and isinstance(n.get("template"), str)):
+        chk.count("R12d.entry_not_a_regex_parser")
+        return
+    try:
+        tm = rx_mod.compile(n["template"], rx_mod.IGNORECASE)
+        anti = rx_mod.compile(n["anti_template"], rx_mod.IGNORECASE) if n.get("anti_template") else None
+    except Exception:
+        chk.count("R12d.patterns_unknown")
+        return
+    fold = None
+    cf = str(n.get("casefold") or "")
+    if label not in rf06["casefold_exempt"]:
+        if "upper" in cf:
+            fold = str.upper
+        elif "lower" in cf:
+            fold = str.lower
+        elif cf:
+            chk.count("R12d.casefold_unknown")
+            return
+
+    def admitted(s_: str) -> bool:
+        if not tm.fullmatch(s_):
+            return False
+        if anti is not None and anti.fullmatch(s_):
+            return False
+        return fold is None or s_ == fold(s_)
+
+    seeds = [w for w in WORD_SEEDS if admitted(w) and dc.single_token(w) is not None]
+    if not seeds:
+        chk.count("R12d.no_plain_word_admitted")
+        return
+    word = seeds[0]
+    kinds_ok = {dc.single_token(w) for w in seeds}
+    chk.count("R12d.dialects_evaluated")
+    construct, loc = _entry_home(repo, g, d, entry)
+    n_adm = 0
+    bad_chars: Dict[tuple, Tuple[str, list, list]] = {}
+    ok_symbols: List[str] = []
+
+    def reading(s_: str):
+        r = dc.lex(s_ + " ")
+        if r and r[-1][0] == " ":
+            r = r[:-1]
+        elif r and r[-1][0].endswith(" "):
+            r = r[:-1] + [(r[-1][0][:-1], r[-1][1])]
+        return r
+
+    # a single token of another matcher is still "one identifier token" unless some typed parser of the
+    # grammar claims that token kind (numeric_literal ...): then the text changes kind
+    claimed = {dc.adj.nodes[j].get("template") for j in dc.adj.reachable
+               if dc.adj.role[j] == "parser" and dc.adj.g.kind_is(dc.adj.nodes[j]["kind"], "TypedParser")}
+
+    def stable(s_: str) -> bool:
+        m = dc.single_token(s_)
+        if m is None:
+            return False
+        return m in kinds_ok or not (dc.adj.matcher_types.get(m, frozenset()) & claimed)
+
+    def char_class(c_: str) -> str:
+        if ord(c_) > 126:
+            return "non-ASCII character"
+        if c_.isdigit():
+            return "digit"
+        if c_.isalpha():
+            return "letter"
+        return f"character {c_!r}"
+
+    for c in PROBE_ASCII + PROBE_OTHER:
+        forms = [f_ for f_ in (c, word + c, c + word, word + c + word) if admitted(f_)]
+        if fold is not None and not forms:
+            c2 = fold(c)
+            forms = [f_ for f_ in (c2, word + c2, c2 + word, word + c2 + word) if admitted(f_)]
+        if not forms:
+            continue
+        chk.count("R12d.characters_admitted")
+        n_adm += len(forms)
+        failing = [f_ for f_ in forms if not stable(f_)]
+        if failing:
+            r_ = reading(failing[0])
+            k_ = (char_class(c), tuple(m for _, m in r_))
+            if k_ not in bad_chars:
+                bad_chars[k_] = (failing[0], r_, [])
+            bad_chars[k_][2].append(c)
+        elif not c.isalnum() and c != "_" and ord(c) < 127:
+            ok_symbols.append(c)
+    shapes: Dict[tuple, Tuple[str, list]] = {}
+    reps = list(REP_CHARS)
+    cands = []
+    for a in reps:
+        cands.append(a)
+        for b in reps:
+            cands.append(a + b)
+            for c in reps:
+                cands.append(a + b + c)
+    for y in ok_symbols:  # an admitted symbol in every position of a string of length <= 3
+        cands.append(y)
+        for a in reps:
+            cands += [a + y, y + a]
+            for b in reps:
+                cands += [y + a + b, a + y + b, a + b + y]
+    for s_ in cands:
+        if not admitted(s_):
+            continue
+        n_adm += 1
+        if stable(s_):
+            chk.obligations += 1
+            chk.discharged += 1
+            continue
+        r = reading(s_)
+        shapes.setdefault(tuple(m for _, m in r), (s_, r))
+    chk.count("R12d.candidates_admitted", n_adm)
+    if label in ("ansi", "postgres", "tsql"):
+        chk.sample({"rule": "R12d", "dialect": label, "entry": entry, "template": n["template"], "plain_word_matchers": sorted(k for k in kinds_ok if k),
+                    "admitted_symbols_read_as_one_token": ok_symbols, "casefold": cf or None})
+    for (cls_, shape_), (ex, r, chars_) in sorted(bad_chars.items()):
+        out.append(dict(
+            construct=construct, loc=loc,
+            detail=f"{cls_} admitted by {entry} -> {' '.join(shape_) or '(nothing)'}; dialect={label}",
+            message=(f"dialect {label}: {entry} (template {n['template']!r}) admits {ex!r}, so RF06 rewrites the quoted identifier to the bare text, "
+                     f"but the lexer table reads it as {_show_tokens(r)} instead of one {'/'.join(sorted(k for k in kinds_ok if k))} token"),
+            extra={"dialect": label, "example": ex, "reads": [list(x) for x in r]},
+        ))
+    char_shapes = {k_[1] for k_ in bad_chars}
+    for shape, (ex, r) in sorted(shapes.items()):
+        if shape in char_shapes:
+            continue  # already reported for the character that causes it
+        out.append(dict(
+            construct=construct, loc=loc,
+            detail=f"text admitted by {entry} -> {' '.join(shape) or '(nothing)'}; dialect={label}",
+            message=(f"dialect {label}: {entry} (template {n['template']!r}) admits {ex!r}, so RF06 rewrites the quoted identifier to the bare text, "
+                     f"but the lexer table reads it as {_show_tokens(r)} instead of one {'/'.join(sorted(k for k in kinds_ok if k))} token"),
+            extra={"dialect": label, "example": ex, "reads": [list(x) for x in r]},
+        ))
 
 
 # -- R12c: the reflow / lexer code has the shape the model assumes -------------------------------------
@@ -804,5 +1042,41 @@ VARIANTS: List[Variant] = [
         '        StringLexer("dot", ".", CodeSegment),\n        StringLexer("comma", ",", CodeSegment),\n',
         '        StringLexer("comma", ",", CodeSegment),\n        StringLexer("dot", ".", CodeSegment),\n',
         QUIET, None, "two single-character matchers that cannot match the same input swapped in the table",
+    ),
+    # ---- R12d: what RF06 unquotes lexes back as one identifier token -------------------------------
+    Variant(
+        "mysql-naked-identifier-admits-dollar", "src/sqlfluff/dialects/dialect_mysql.py",
+        'r"([A-Z0-9_]*[A-Z][A-Z0-9_]*)|_",',
+        'r"([A-Z0-9_$]*[A-Z][A-Z0-9_$]*)|_",',
+        "R12d", "character '$'",
+        "the naked-identifier pattern widened ('MySQL permits $ in unquoted identifiers') while the word matcher is left alone: RF06 unquotes `net$amount`, which lexes as 'net' + unlexable '$amount'",
+    ),
+    Variant(
+        "postgres-word-matcher-loses-dollar", "src/sqlfluff/dialects/dialect_postgres.py",
+        'RegexLexer("word", r"[\\p{L}_][\\p{L}\\p{N}_$]*", WordSegment),',
+        'RegexLexer("word", r"[\\p{L}_][\\p{L}\\p{N}_]*", WordSegment),',
+        "R12d", "character '$'",
+        "the lexer's word class narrowed while NakedIdentifierSegment still admits '$': RF06 unquotes \"a$b\" into text that no longer lexes as one word",
+    ),
+    Variant(
+        "quiet-mysql-naked-identifier-noncapturing", "src/sqlfluff/dialects/dialect_mysql.py",
+        'r"([A-Z0-9_]*[A-Z][A-Z0-9_]*)|_",',
+        'r"(?:[A-Z0-9_]*[A-Z][A-Z0-9_]*)|_",',
+        QUIET, None, "the same language written with a non-capturing group",
+    ),
+    Variant(
+        "quiet-rf06-template-through-local", "src/sqlfluff/rules/references/RF06.py",
+        """        if not regex.fullmatch(
+            naked_identifier_parser.template,
+            identifier_contents,
+            regex.IGNORECASE,
+        ):""",
+        """        naked_template = naked_identifier_parser.template
+        if not regex.fullmatch(naked_template, identifier_contents, regex.IGNORECASE):""",
+        QUIET, None, "the parser's template passed through a local",
+    ),
+    Variant(
+        "quiet-rf06-short-flag-name", "src/sqlfluff/rules/references/RF06.py",
+        "regex.IGNORECASE", "regex.I", QUIET, None, "regex.I is regex.IGNORECASE", count=2,
     ),
 ]
